@@ -231,8 +231,11 @@ def run_job(job):
                 edits = {"total@0": total, "actual@0": actual}
                 vals = dict(total=total, actual=actual)
             else:
-                comps = [(payload, 2, [(0xC2, b"\x02")])]
-                edits, vals = {}, {}
+                ln = sym.sym_int("enclen", 0, 3)
+                L = c05.split(ln, 2)
+                encval = sym.sym_bytes("encval", L)
+                comps = [(payload, 2, [(0xC2, encval)])]
+                edits, vals = {}, dict(encval=encval)
             binary, _ = c05.serialise(mac, key, comps, edits)
             c = stubs.Carrier()
             c.raw, c.comments = binary, {}
@@ -378,7 +381,7 @@ def replay(job):
             if kind == "bf3len":
                 comps, edits = [(b"\x07\x08"[:total], 2, [(0xC1, b"\x00")])], {"total@0": total, "actual@0": actual}
             else:
-                comps, edits = [(b"\x07\x08", 2, [(0xC2, b"\x02")])], {}
+                comps, edits = [(b"\x07\x08", 2, [(0xC2, (w.get("encval") if isinstance(w.get("encval"), bytes) else b"\x02") if (total, actual) == combos[0] else [b"", b"\x02", b"\x02\x00"][(total + actual) % 3])])], {}
             binary, _ = c05.serialise(mac, key, comps, edits)
             for chk in (True, False):
                 r = run(lambda: bf.Bf3File.read_file(io.StringIO("\n" + binary.hex().upper() + "\n"), chk, key), "Bf3File.read_file")
